@@ -34,7 +34,7 @@ ASSUMPTIONS = ["exact degeneracy inside the rotated pair (for a gap between 0 an
 OUTSIDE = ["degenerate multiplets of more than two bands", "the numerical eigensolver (np.linalg.eigh is stubbed: the H(k+G)=H(k) identity at matrix level is what is shown; equal matrices give equal eigen-decompositions)",
            "integrated results of run(): they follow from the per-k traces by linearity of the k-sum (stated, not checked)", "SDCT / dynamic-calculator pair formulas (trace_ln)"]
 STUBS = ["np.exp in fourier/fft.py and fourier/rvectors.py: exp(i(phi+c)) = exp(i phi)*exp(i c) with the constant part evaluated in doubles (so k and k+G share unit-circle atoms)",
-         "np.linalg.eigh: returns the harness's symbolic spectrum (e0,e0,e1) and a fixed complex matrix U0 mixing all bands (random_gauge cases)", "scipy.stats.unitary_group.rvs(2) -> W from the U(2) family",
+         "np.linalg.eigh: returns the harness's symbolic spectrum (e0,e0,e1) and a fixed complex matrix U0 mixing all bands (random_gauge cases)", "scipy.stats.unitary_group.rvs(2) -> W from the U(2) family for the first draw of a Data_K object, a fixed concrete unitary for any further draw (draws are counted: exactly one per degenerate pair per object)",
          "system object: attributes num_wann, real_lattice, rvec (a real Rvectors), get_R_mat/has_R_mat on a dict", "Data_K.delE_K pre-seeded (see C08)"]
 
 
@@ -143,7 +143,7 @@ def shell(nb, E, X, UU):
     dk.__dict__['E_K'] = E.copy()
     dk.__dict__['nk'] = 1
     dk.__dict__['cell_volume'] = 8.0
-    dk.__dict__['UU_K'] = UU
+    dk.random_gauge, dk._UU = False, UU        # the REAL UU_K body runs (random_gauge off -> returns _UU); nothing is preset under the name UU_K
     if X.partner is not None:
         X.rot = dk._rotate
     V = X[('Ham', 1)]
@@ -319,29 +319,44 @@ def case_random_gauge(rec, nb):
     shadow(MODS, proxy=NpProxy(linalg=EighStub(np.linalg, E, log)))
     calls = []
 
+    EXTRA = np.array([[0, 1j], [1, 0]])      # what any draw beyond the first per Data_K object returns: a cheap concrete unitary, so that a re-randomising UU_K ends quickly in a violation
+
     def rvs(dim, *a, **k):
         if dim != 2:
             raise Assume("multiplet of more than two bands within the threshold (outside the claim)")
         calls.append(dim)
-        return W.copy()
+        if len(calls) > 8:
+            raise Inconclusive("more than 8 unitaries drawn for one Data_K object")
+        return W.copy() if len(calls) == 1 else lift(EXTRA)
     scipy.stats.unitary_group.rvs = rvs
     names = ["Ham", "AA", "SS"]
     tabs = tabulators()
 
     def body(rec):
-        del calls[:]
         res = []
         syst = sym_system(nb, IR3, names)
         rec.witness = lambda env: dict(test="random_gauge", nb=nb, E=env.val(E[0]).tolist(), thr=env.val(thr), W=env.arr(W), XR={k: env.arr(v) for k, v in syst._XX_R.items()})
         for rg in (False, True):
+            del calls[:]
             dk = Data_K_R(sym_system(nb, IR3, names), k_list=K0.copy(), grid=GridStub(), random_gauge=rg, degen_thresh_random_gauge=thr)
             dk.__dict__['cell_volume'] = 8.0
-            UUk = dk.UU_K
+            U1 = np.array(dk.UU_K, dtype=object).view(SymArray)       # copies: the real code rotates self._UU in place
+            U2 = np.array(dk.UU_K, dtype=object).view(SymArray)
+            ok = rec.eq(f"random_gauge={rg}: two consecutive reads of UU_K give the same eigenvectors", U2, U1, key="random_gauge: UU_K changes between two reads (eigenvectors re-randomised)")
+            ok = rec.concrete(f"random_gauge={rg}: exactly one unitary drawn per degenerate pair per Data_K object", calls == ([2] if rg else []), detail=f"draws after two reads: {calls}",
+                              key="random_gauge: number of unitaries drawn differs from one per degenerate group per Data_K object") and ok
+            if not ok:
+                return        # the gauge is not fixed per object: the remaining obligations have no meaning (and every further read would rotate again)
             if rg:
                 want = (lift(U0(nb)) @ embed(W, nb)[0])[None].view(SymArray)
-                rec.eq("UU_K = eigenvectors rotated by the drawn unitary inside the degenerate pair only", UUk, want, key="random_gauge: UU_K is not U * (W (+) 1)")
-                rec.concrete("one unitary of size 2 drawn", calls == [2], detail=str(calls), key="random_gauge: wrong multiplet sizes drawn")
+                rec.eq("UU_K = eigenvectors rotated by the drawn unitary inside the degenerate pair only", U1, want, key="random_gauge: UU_K is not U * (W (+) 1)")
             res.append({q: tab(dk).data for q, tab in tabs.items()})
+            if rg:
+                again = {q: tabs[q](dk).data for q in ("band_gradients", "berry_curvature")}
+                for q in again:
+                    rec.eq(f"tabulated {q}: second evaluation on the same Data_K == first", again[q], res[1][q], key=f"random_gauge: tabulated {q} changes from call to call")
+                rec.concrete("still exactly one unitary drawn after all evaluations", calls == [2], detail=str(calls),
+                             key="random_gauge: number of unitaries drawn differs from one per degenerate group per Data_K object")
         for q in res[0]:
             rec.eq(f"tabulated {q}: random_gauge=True == random_gauge=False", res[1][q], res[0][q], key=f"random_gauge changes the tabulated {q}")
     rec.explore(body, ass + [thr.zreal() > 0])
@@ -354,8 +369,8 @@ PER_NAMES = [("Ham", 0), ("Ham", 1), ("Ham", 2), ("AA", 0), ("AA", 1), ("SS", 0)
 
 
 def wannier_gauge(dk, nb):
-    dk.__dict__['UU_K'] = np.eye(nb)[None].repeat(dk.nk, axis=0)
-    dk.__dict__['E_K'] = None
+    dk._UU = np.eye(nb)[None].repeat(dk.nk, axis=0)      # Wannier gauge: what E_K would store for U = 1; the real UU_K body runs (random_gauge is off)
+    dk.__dict__['E_K'] = np.zeros((dk.nk, nb))
     out = {"HH_K": dk.HH_K}
     for name, der in PER_NAMES:
         out[f"{name},{der}"] = dk.Xbar(name, der)
@@ -552,13 +567,17 @@ def _replay(rec):
             E[0, 2:] = E[0, 1] + 0.37 * np.arange(1, nb - 1)
         real_eigh, real_rvs = np.linalg.eigh, scipy.stats.unitary_group.rvs
         np.linalg.eigh = lambda a, *x, **k: (E.copy(), U0(nb)[None].copy())
-        scipy.stats.unitary_group.rvs = lambda dim, *a, **k: W.copy()
+        draws = []
+        scipy.stats.unitary_group.rvs = lambda dim, *a, **k: (draws.append(dim), W.copy())[1]
         try:
             res = []
             for rg in (False, True):
+                del draws[:]
                 dk = Data_K_R(sym_system(nb, IR3, list(XR), concrete=XR), k_list=K0.copy(), grid=GridStub(), random_gauge=rg, degen_thresh_random_gauge=w["thr"] or 1e-4)
                 dk.__dict__['cell_volume'] = 8.0
-                UUk = dk.UU_K
+                UUk, UU2 = np.array(dk.UU_K), np.array(dk.UU_K)
+                if np.abs(UU2 - UUk).max() > 1e-9 or draws != ([2] if rg else []):
+                    return True, f"random_gauge={rg}: two reads of UU_K differ by {np.abs(UU2 - UUk).max():.2e}; unitaries drawn: {draws} (expected {[2] if rg else []})"
                 if rg:
                     WW = np.eye(nb, dtype=complex)
                     WW[:2, :2] = W
@@ -566,6 +585,11 @@ def _replay(rec):
                     if np.abs(UUk - want).max() > 1e-9:
                         return True, f"UU_K differs from U*(W(+)1) by {np.abs(UUk - want).max():.2e}"
                 res.append({q: tab(dk).data for q, tab in tabulators().items()})
+                if rg:
+                    again = {q: tabulators()[q](dk).data for q in ("band_gradients", "berry_curvature")}
+                    d = max(np.abs(again[q] - res[1][q]).max() for q in again)
+                    if d > 1e-9 or draws != [2]:
+                        return True, f"second evaluation on the same Data_K differs by {d:.2e}; unitaries drawn: {draws}"
         finally:
             np.linalg.eigh, scipy.stats.unitary_group.rvs = real_eigh, real_rvs
         worst = max(np.abs(res[0][q] - res[1][q]).max() for q in res[0])
